@@ -1,7 +1,9 @@
 package props
 
 import (
+	"errors"
 	"fmt"
+	"io"
 	"strings"
 
 	"go.uber.org/zap"
@@ -103,7 +105,15 @@ func runC17(c *Ctx) {
 	otherN := 0
 	lvl := zap.NewAtomicLevelAt(zapcore.InfoLevel)
 	core, logs := observer.New(lvl)
-	shared := zap.New(core)
+	var wcore zapcore.Core = core
+	if c.F.Chance(4) {
+		// the writer's logger also feeds a destination that fails every write
+		// (registered in front of the judged one): the lines are logged all the
+		// same, Write still reports every byte as consumed
+		wcore = zapcore.NewTee(c17failCore{lvl}, core)
+		c.Fault("failing-sibling-core")
+	}
+	shared := zap.New(wcore, zap.ErrorOutput(zapcore.AddSync(io.Discard)))
 	wr := &zapio.Writer{Log: shared, Level: pick(g, zapcore.InfoLevel, zapcore.WarnLevel)}
 	// one run in four: a second writer on the same logger (a child's stderr
 	// next to its stdout), fed by its own task at a level that stays enabled
@@ -297,3 +307,19 @@ func runC17(c *Ctx) {
 		}
 	}
 }
+
+// c17failCore enables what the judged core enables and fails every write.
+type c17failCore struct{ lvl zap.AtomicLevel }
+
+func (k c17failCore) Enabled(l zapcore.Level) bool      { return k.lvl.Enabled(l) }
+func (k c17failCore) With([]zapcore.Field) zapcore.Core { return k }
+func (k c17failCore) Check(e zapcore.Entry, ce *zapcore.CheckedEntry) *zapcore.CheckedEntry {
+	if k.Enabled(e.Level) {
+		return ce.AddCore(e, k)
+	}
+	return ce
+}
+func (c17failCore) Write(zapcore.Entry, []zapcore.Field) error {
+	return errors.New("injected failure of a sibling core")
+}
+func (c17failCore) Sync() error { return nil }
